@@ -141,7 +141,7 @@ func init() {
 		Run: func(p *core.Program, r *core.Report) {
 			res := runLockset(p)
 			checkGuardTable(res, r, containerTypes)
-			emitLockset(res, r, map[string]bool{"LK1": true, "LK2": true, "LK3": true, "LK4": true, "LK5": true, "AT1": true}, containerTypes)
+			emitLockset(res, r, map[string]bool{"LK1": true, "LK2": true, "LK3": true, "LK4": true, "LK5": true, "AT1": true, "AT3": true}, containerTypes)
 			for _, s := range res.Info {
 				r.Info("%s", s)
 			}
